@@ -83,6 +83,17 @@ Theorem C10_dataset : forall mb cur es,
   ds_ok (fun _ _ => False) (fun _ => False) cur es -> ds_rt mb cur es.
 Proof. exact dataset_modelled. Qed.
 
+(** "Encoded with that set": after an element (0008,0005) naming a supported set, that set
+    is in force ([cs_after] folds this over a prefix), and the value bytes of a text element
+    are the padded [encode] of the set in force there (the default set for the
+    default-repertoire VRs). *)
+Theorem C10_switch : forall cur cs rest, next_write_cs cur scs_tag (VStrs (name cs :: rest)) = cs.
+Proof. exact next_write_scs. Qed.
+Theorem C10_written_with_set : forall mb pre cur tag v t r wire,
+  write_ds mb cur (pre ++ (tag, v, VStr t) :: r) = Ok wire ->
+  exists b, encode mb (eff (cs_after cur pre) v) t = Ok b /\ nth (List.length pre) wire [] = pad v b.
+Proof. exact written_with_set. Qed.
+
 (** An element holding a character the set in force cannot represent makes the whole
     write fail (never a silent substitution), whatever precedes or follows it. *)
 Theorem C10_dataset_strict : forall mb pre cur tag v x r,
@@ -196,6 +207,8 @@ Print Assumptions C10_terms.
 Print Assumptions C10_aliases.
 Print Assumptions C10_terms_observed.
 Print Assumptions C10_dataset.
+Print Assumptions C10_switch.
+Print Assumptions C10_written_with_set.
 Print Assumptions C10_dataset_strict.
 Print Assumptions C10_default_vrs_unaffected.
 Print Assumptions C10_multibyte_partial.
